@@ -10,7 +10,7 @@ import re
 from hv import common as C
 from gen import diff_gen as G
 
-KEEP = re.compile(r"^(case|build|D |apply|S P|SI P|rebuild|unapply|hand|S H|SI H|X)")
+KEEP = re.compile(r"^(case|build|revbuild|D |apply|S P|SI P|rebuild|unapply|hand|S H|SI H|X)")
 
 
 def split_cases(text):
@@ -48,6 +48,23 @@ def state(lines, tag, tmem=True):
         elif l.startswith("SI %s " % tag):
             res.append(l.split(" ", 2)[2])
     return res
+
+
+def norm_dump(lines, tag):
+    """the dump of one topology reduced to what hwloc_topology_diff_build compares: the tree shape (nesting level and
+    child list of every object) and every field but logical_index and total_memory; topology-level lines as they are"""
+    out = []
+    for l in lines:
+        f = l.split(" ")
+        if len(f) < 2 or f[1] != tag:
+            continue
+        if f[0] == "O":
+            out.append(" ".join(["O"] + f[2:5] + f[6:16] + f[17:]))
+        elif f[0] == "T":
+            out.append(" ".join(["T"] + f[3:]))          # nb_levels follows from the tree
+        elif f[0] in ("TI", "TD", "TM", "TMT", "TK"):
+            out.append(" ".join([f[0]] + f[2:]))
+    return out
 
 
 def kv(line):
@@ -184,6 +201,19 @@ def evaluate(case, clines, mlines):
             has_tc = any(l.startswith("D tc") for l in L)
             if (rc == 1) != has_tc or rc not in (0, 1):
                 viol.append(("build-rc:" + case, "rc=%d but TOO_COMPLEX entry present=%s" % (rc, has_tc)))
+            # independently of the model: "0 with a NULL diff" only for equal dumps, in both directions; inexpressible is symmetric
+            same_dumps = norm_dump(clines, "A") == norm_dump(clines, "B")
+            rb = next((l.split() for l in L if l.startswith("revbuild ")), None)
+            if rc == 0 and n == 0 and not same_dumps:
+                viol.append(("build-zero-dumps-differ:" + case, "diff_build(A,B) returns 0 with a NULL diff but the dumps of A and B differ in what it compares"))
+            if rb is not None:
+                rrc, rn = int(rb[1]), int(rb[2])
+                if rrc == 0 and rn == 0 and not same_dumps:
+                    viol.append(("build-zero-dumps-differ:" + case, "diff_build(B,A) returns 0 with a NULL diff but the dumps of A and B differ in what it compares"))
+                if (rc == 1) != (rrc == 1) or (rrc == 1) != (rb[3] == "tc=1"):
+                    viol.append(("build-asymmetric:" + case, "diff_build(A,B) returns %d and diff_build(B,A) returns %d (%s): whether a difference is expressible does not depend on the direction" % (rc, rrc, rb[3])))
+                if same_dumps and hypA.get("no_hetero") != "0" and not (rrc == 0 and rn == 0):
+                    viol.append(("build-zero:" + case, "equal dumps but diff_build(B,A) returns %d with %d entries" % (rrc, rn)))
             if eq:
                 equal_all = eq["root"] == "1" and eq["top"] == "1" and eq["tinfos"] == "1" and eq["mattr"] == "1"
                 express = eq["skel"] == "1" and eq["top"] == "1" and eq["tinfonames"] == "1" and eq["mattr"] == "1"
@@ -311,6 +341,11 @@ def check(run, replay=None):
                 base = int(kv(l)["len"]) - 100
         for xc in G.xml_cases(rng, base, run.tier) + G.xmlload_cases():
             cases.append((xc[0][5:], xc))
+        # child lists of different length / content at one place, all four kinds, both directions
+        stopos = G.shape_topos(C.REPO)
+        rcs, outs, _, _, _, _ = run_script(exe, drv, G.probe_script(stopos))
+        for sc in G.shape_cases(rng, stopos, G.parse_tables(outs), run.tier) + G.filter_cases(C.REPO):
+            cases.append((sc[0][5:], sc))
         topos = G.topo_lines(C.REPO, run.tier)
         rc, out, err, _, _, _ = run_script(exe, drv, G.probe_script(topos))
         tables = G.parse_tables(out)
@@ -348,7 +383,7 @@ def check(run, replay=None):
         viol, diff = evaluate(name, cl, ml)
         res = [l for l in cl if KEEP.match(l)]
         nontriv = any(l.startswith("D ") for l in res)
-        kind = "xmlload" if any(l.startswith("xmlload") for l in cl) else "misuse" if any(l.startswith("misuse") for l in cl) else "xml" if any(l.startswith("xmlhand") for l in cl) else ("hand" if any(l.startswith("hand") for l in res) else "pair")
+        kind = "shape" if name.startswith(("shape-", "filt-")) else "xmlload" if any(l.startswith("xmlload") for l in cl) else "misuse" if any(l.startswith("misuse") for l in cl) else "xml" if any(l.startswith("xmlhand") for l in cl) else ("hand" if any(l.startswith("hand") for l in res) else "pair")
         run.count("\n".join(res), nontrivial=nontriv, sample={"case": by_name.get(name, [])[:12], "impl": res[:6]}, kind=kind)
         for l in ml:
             if l.startswith("hyp A") or l.startswith("hypd") or l.startswith("hyph"):
